@@ -21,13 +21,17 @@ import (
 // model types.  No Coq model: disagreements are reported as direct failures.
 
 type jgen struct {
-	r    *emit.Rng
-	muts []string // mutations applied to the document under construction
-	p    int      // probability (per 1000) of a local mutation at each construct; 0 = grammar only
+	r      *emit.Rng
+	muts   []string // mutations applied to the document under construction
+	seen   int      // mutation opportunities met so far
+	target int      // the opportunity at which to mutate (-1: none; grammar only)
 }
 
+// exactly one local mutation per mutated document: a first pass counts the opportunities, the second pass
+// (same random state) mutates at one of them
 func (g *jgen) mut(name string) bool {
-	if g.p > 0 && g.r.Intn(1000) < g.p {
+	g.seen++
+	if g.seen-1 == g.target {
 		g.muts = append(g.muts, name)
 		return true
 	}
@@ -476,15 +480,25 @@ func runJSON(c *cli.Ctx, rn *runner, r *emit.Rng) error {
 	stats := map[string]int{}
 	n := 900 * c.Scale
 	for i := 0; i < n; i++ {
-		g := &jgen{r: r}
+		g := &jgen{r: r, target: -1}
 		mode := "grammar"
 		switch {
 		case i%3 == 1:
-			g.p, mode = 60, "mutated"
+			mode = "mutated"
 		case i%9 == 2:
 			mode = "damaged"
 		}
-		doc, kind := g.doc()
+		var doc, kind string
+		if mode == "mutated" {
+			saved := *r
+			probe := &jgen{r: &saved, target: -1}
+			probe.doc()
+			again := *r
+			g = &jgen{r: &again, target: r.Intn(probe.seen)}
+			doc, kind = g.doc()
+		} else {
+			doc, kind = g.doc()
+		}
 		if mode == "damaged" {
 			doc = g.damage(doc)
 		}
